@@ -90,6 +90,8 @@ def _declined(model, impl):
     """the model answered `unmodelled` (error kind Other) where the implementation did not"""
     if model.get("err") == "Other" and impl.get("err") != "Other":
         return True
+    if model.get("construct_err") == "Other":      # (the recipe itself is outside the modelled constructor domain)
+        return True
     ms, is_ = model.get("steps"), impl.get("steps")
     if isinstance(ms, list) and isinstance(is_, list):
         for a, b in zip(ms, is_):
